@@ -9,6 +9,8 @@ pub static ENABLED: AtomicBool = AtomicBool::new(false);
 pub static MISMATCHES: AtomicU64 = AtomicU64::new(0);
 pub static TRACKED: AtomicU64 = AtomicU64::new(0);
 pub static LIVE: AtomicU64 = AtomicU64::new(0);
+/// allocations of size 0 requested while enabled (undefined behaviour for GlobalAlloc::alloc)
+pub static ZERO_SIZED: AtomicU64 = AtomicU64::new(0);
 const CAP: usize = 1 << 16;
 static PTRS: [AtomicUsize; CAP] = [const { AtomicUsize::new(0) }; CAP];
 static SIZES: [AtomicUsize; CAP] = [const { AtomicUsize::new(0) }; CAP];
@@ -20,6 +22,11 @@ fn slot(p: usize) -> usize {
 
 unsafe impl GlobalAlloc for Tracking {
     unsafe fn alloc(&self, layout: Layout) -> *mut u8 {
+        if layout.size() == 0 && ENABLED.load(Relaxed) {
+            ZERO_SIZED.fetch_add(1, Relaxed);
+            // never hand a zero-sized request to the system allocator
+            return System.alloc(Layout::from_size_align_unchecked(layout.align().max(1), layout.align().max(1)));
+        }
         let p = System.alloc(layout);
         if !p.is_null() && ENABLED.load(Relaxed) && layout.align() == 8 && layout.size() % 16 == 0 && layout.size() >= 16 {
             let mut i = slot(p as usize);
